@@ -366,7 +366,8 @@ fn raw_strategy(which: Which, tier_thorough: bool) -> BoxedStrategy<RawCase>
     let p = match which
     {
         Which::C03 | Which::C05 => RawParams {
-            invalid_utf8: which == Which::C03,
+            // "given at least one readable in-scope file": trees may mix unreadable and readable files
+            invalid_utf8: true,
             p_mutated: 45,
             max_repeat: 400,
             max_bytes: if tier_thorough { 4 << 20 } else { 1 << 20 },
@@ -392,7 +393,7 @@ fn raw_strategy(which: Which, tier_thorough: bool) -> BoxedStrategy<RawCase>
         Which::C05 => prop_oneof![3 => Just(false), 1 => Just(true)].boxed(),
         _ => prop_oneof![9 => Just(false), 1 => Just(true)].boxed(),
     };
-    (raw_tree(StructSel::Any, 3, p), pre)
+    (raw_tree(StructSel::Any, if which == Which::C05 { 5 } else { 3 }, p), pre)
         .prop_map(|(tree, pre_edit)| RawCase { tree, pre_edit })
         .boxed()
 }
